@@ -25,9 +25,11 @@ func (c Cfg) layout() sim.Layout { return sim.L0(c.PageSize) }
 
 func stdCfgs(thorough bool) []Cfg {
 	var out []Cfg
-	sizes := []uint32{512, 1024, 4096}
+	// the smallest, the usual and the largest legal page size in both tiers (65536 is the one a bound
+	// written with >= instead of > loses); every legal size in the thorough tier
+	sizes := []uint32{512, 1024, 4096, 65536}
 	if thorough {
-		sizes = append(sizes, 65536)
+		sizes = []uint32{512, 1024, 2048, 4096, 8192, 16384, 32768, 65536}
 	}
 	for i, ps := range sizes {
 		for j, sec := range []int{512, 4096} {
